@@ -25,8 +25,11 @@ for k in kf:
     pre = k["signature_prefix"]
     ins = sorted({s[len(pre):].lstrip(":") for s in sigs if s.startswith(pre) and len(s) > len(pre)})
     if ins:
-        k["inputs"] = sorted(set(k.get("inputs", [])) | set(ins))
-        print(pre, len(k["inputs"]), "inputs")
+        field = "inputs" if tier == "quick" else "inputs_thorough"
+        k[field] = sorted(set(k.get(field, [])) | set(ins))
+        if tier != "quick":
+            k[field] = sorted(set(k[field]) - set(k.get("inputs", [])))
+        print(pre, len(k[field]), field)
 json.dump(kf, open(kf_path, "w"), indent=1)
 left = [s for s in sigs if not any(s.startswith(k["signature_prefix"]) for k in kf if k["property"] == pid and k["status"] == "open")]
 print("unmatched signatures:", left[:10])
